@@ -212,6 +212,20 @@ def gateObservation (ck : CloserKind) (cfg : LiveCfg) (openBefore : Bool) (op : 
     ro.readings.head?.map fun start => (start, !((runEvents ro.emits).any fun e => e.1 == Kind.shortCircuit))
   else none
 
+/-- the callbacks of one executed call with the run event's KIND replaced by what the property says it must be (computed
+    from what the function really returned, how long it ran and the caller's context — `expectedExecutedKind`): the
+    books that count successes / failures in a row (C03's closing condition, C02's consecutive-errors verdict) must not
+    take the library's own classification on trust -/
+def truthEmits (cfg : LiveCfg) (op : ExecOp) (o : ExecObs) : List Emit :=
+  match op.run with
+  | some sc =>
+    if o.runCalls = 1 ∧ (runPanics op).isNone ∧ (runEvents o.emits).length = 1 then
+      o.emits.map fun e => match e with
+        | .run _ t d => .run (expectedExecutedKind cfg op sc) t d
+        | e => e
+    else o.emits
+  | none => o.emits
+
 /-- the consecutive-errors opener at circuit level, judged on what the REAL circuit reported: after this call's run
     event the streak is `cc'`; a closed, not-overridden circuit must have opened iff the event was a failure / timeout
     and the streak reached the threshold -/
@@ -237,6 +251,13 @@ def verdictC04 (cfgRun cfgFb : LiveCfg) (ro : ExecObs) : Option String :=
   else if ro.conc != 0 ∨ ro.concFb != 0 then some "a gauge does not read zero after the call returned"
   else if cfgRun.maxConc == 0 ∧ ro.runCalls ≠ 0 then some "run function invoked although Execution.MaxConcurrentRequests = 0"
   else if cfgFb.fbMaxConc == 0 ∧ ro.fbCalls ≠ 0 then some "fallback invoked although Fallback.MaxConcurrentRequests = 0 was in force"
+  -- "records exactly one rejection event": a refusal is never reported twice (every sink's log equals the first one's — fanOk)
+  else if ((runEvents ro.emits).filter fun e => e.1 == Kind.reject).length > 1 then some "more than one run rejection event for one call"
+  else if ((fbEvents ro.emits).filter fun e => e.1 == FbKind.reject).length > 1 then some "more than one fallback rejection event for one call"
+  -- a caller answered ConcurrencyLimitReached whose function was not invoked: exactly one rejection event of that side
+  else if ro.res == Res.ret (some ErrV.concLimit) ∧ ro.runCalls = 0 ∧ ro.fbCalls = 0 ∧ ro.fanOk ∧
+      ((runEvents ro.emits).filter fun e => e.1 == Kind.reject).length + ((fbEvents ro.emits).filter fun e => e.1 == FbKind.reject).length = 0 then
+    some "a call refused for the concurrency limit recorded no rejection event"
   else none
 
 def gateVerdict (e : SpecC16.Epoch) (g : Option (Int × Bool)) : Option String :=
@@ -298,8 +319,8 @@ partial def runCircuitOps (fresh : OState × CState × SpecC03.Book) (ck : Close
               ("C06", verdictC06 cfgSpec op ro), ("C02", (verdictC02 cfgSpec op ro).orElse fun _ => consecVerdict isConsec cfgSpec rb.openBefore rb.cc rb.thr ro), ("C07", verdictC07 cfgSpec op ro), ("C08", verdictC08 cfgSpec rb.openBefore pv op ro),
               ("C09", verdictC09 cfgSpec rb.lastNotif ro.emits ro.openAfter ro.fanOk),
               ("C10", verdictC10 cfgSpec rb.openBefore rb.conc rb.concFb op ro), ("C12", (verdictC12 ro.emits ro.readings).orElse fun _ => verdictC12o ro.emits ro.readings),
-              ("C03", (gateVerdict rb.ep (gateObservation ck cfgSpec rb.openBefore op ro)).orElse fun _ => if ck == CloserKind.hystrix then SpecC03.verdictExec rb.c03 cfgSpec rb.openBefore ro else none)],
-             { c03 := rb.c03.afterExec rb.openBefore ro, cc := consecAfter rb.cc ro.emits, thr := rb.thr, ep := epAfterExec rb.ep (gateObservation ck cfgSpec rb.openBefore op ro) ro.emits, openBefore := ro.openAfter, lastNotif := ((notifs ro.emits).getLast?).orElse fun _ => rb.lastNotif, conc := ro.conc, concFb := ro.concFb })
+              ("C03", (gateVerdict rb.ep (gateObservation ck cfgSpec rb.openBefore op ro)).orElse fun _ => if ck == CloserKind.hystrix then SpecC03.verdictExec rb.c03 cfgSpec rb.openBefore { ro with emits := truthEmits cfgSpec op ro } else none)],
+             { c03 := rb.c03.afterExec rb.openBefore { ro with emits := truthEmits cfgSpec op ro }, cc := consecAfter rb.cc (truthEmits cfgSpec op ro), thr := rb.thr, ep := epAfterExec rb.ep (gateObservation ck cfgSpec rb.openBefore op ro) ro.emits, openBefore := ro.openAfter, lastNotif := ((notifs ro.emits).getLast?).orElse fun _ => rb.lastNotif, conc := ro.conc, concFb := ro.concFb })
         -- the settings the specification tracks follow the REAL call: they change iff its run function was invoked
         let realRan : Bool := match parseObs op real with | some ro => ro.runCalls != 0 | none => mo.runCalls != 0
         let cfgSpec' := match mid with | some m => if realRan then { m with iei := cfgSpec.iei } else cfgSpec | none => cfgSpec
